@@ -201,6 +201,29 @@ def generate(tier, rng, n=None):
         lines.append("state")
         cases.append(Case("cli-%d" % k, lines, {"impl_only": True, "sent": sent, "expect_rx": expect_rx, "garbage": garbage,
                                                 "teardown": td, "tags": ["client", flavour, td, "garbage=%s" % garbage]}))
+    # a client with a reconnection period: it reconnects after a disconnect, and NOT after close() — whether close() is
+    # called from outside or from inside the disconnected handler (C11: a closed client leaves no work in the event loop)
+    for k in range(6 if tier == "quick" else 60):
+        flavour = rng.choice(["tcp", "ssl"])
+        inside = rng.chance(1, 2)
+        lines = ["client cont=%s flavour=%s period=15%s" % (rng.choice("sv"), flavour, " ondisc=close" if inside else ""), "cl-connected"]
+        if flavour == "ssl":
+            lines.append("hs c0 ok")
+        if rng.chance(1, 2):
+            lines += ["cl-send m=474554 u=2f", "wdone c0", "read c0 " + hx(b"HTTP/1.1 200 OK\r\nContent-Length: 0\r\n\r\n")]
+        if not inside:
+            # first a legitimate reconnect …
+            lines += ["rderr c0 %s" % rng.choice(["eof", "reset"]), "wait 60", "cl-connected"]
+            if flavour == "ssl":
+                lines.append("hs c0 ok")
+            lines.append("cl-close")
+        else:
+            lines.append("rderr c0 %s" % rng.choice(["eof", "reset"]))
+        close_at = len(lines) - 1
+        lines += ["wait 60", "cl-connected", "poll", "state"]
+        cases.append(Case("cli-rc-%d" % k, lines, {"impl_only": True, "sent": [], "expect_rx": None, "garbage": False,
+                                                   "teardown": "reconnect", "close_at": close_at, "inside": inside,
+                                                   "tags": ["client", flavour, "reconnect-" + ("inside" if inside else "outside")]}))
     return cases
 
 
@@ -213,6 +236,21 @@ def judge(case, out):
         return res
     if not out or out[-1] != "end":
         res["abort"] = "the harness did not finish the script (hang or crash): last lines %s" % out[-3:]
+        return res
+    if case.meta["teardown"] == "reconnect":
+        segs = "\n".join(out).split("\n;\n")
+        # segment 0 is the `client` line's output, segment k belongs to script line k
+        after = segs[case.meta["close_at"] + 1:]
+        before = segs[:case.meta["close_at"] + 1]
+        n_before = sum(1 for s_ in before for l in s_.split("\n") if l == "cl connected")
+        if not case.meta["inside"] and n_before != 2:
+            res["life"] = "a client with a reconnection period did not reconnect after the peer closed (connected %d times)" % n_before
+        if any(l == "cl connected" for s_ in after for l in s_.split("\n")):
+            res["life"] = "the client reconnected after close() had been called%s" % (
+                " from inside its disconnected handler" if case.meta["inside"] else "")
+        st = [l for l in out if l.startswith("state ")]
+        if st and "pending=1" in st[-1]:
+            res["life"] = "work is left in the io_context after the client was closed: %s" % st[-1]
         return res
     # --- what the client wrote (C04)
     wires = b"".join(unhx(l.split()[3]) for l in out if l.startswith("io wire c0 ") and len(l.split()) > 3)
